@@ -393,6 +393,14 @@ pub fn shape(name: &str) -> Logical {
             let _ = n;
             l
         }
+        // one compressed cluster whose plain data (12 x 48 KiB) spans several blocks of every codec:
+        // a decoder that fails late has already published a prefix
+        "wide" => {
+            let mut l = shape("small");
+            l.name = name.into();
+            l.contents = (0..12).map(|i| item(48 * 1024, Entropy::Low, Hint::Yes, 300 + i as u64)).collect();
+            l
+        }
         // as multi2 with contents of a few bytes (the loom engines keep one shadow cell per decoded
         // byte and loom's version counters are 16 bits wide)
         "tiny3" => {
